@@ -402,7 +402,7 @@ def prattOpP : P PrattOp := do
   | "postfix" => do let bp ← nat; pure (.postfix bp (← gP))
   | t => throw s!"bad pratt operator {t}"
 
-def prattCase : P (Case × G × List PrattOp) := do
+def prattCase : P (Case × G × List PrattOp × Bool) := do
   let id ← tok
   let ek ← match (← tok) with
     | "rich" => pure ErrKind.rich | "simple" => pure ErrKind.simple
@@ -415,7 +415,10 @@ def prattCase : P (Case × G × List PrattOp) := do
     | "parse" => pure Mode.emit | "check" => pure Mode.check
     | t => throw s!"bad mode {t}"
   let fuel ← nat
-  let a ← tok
+  let a0 ← tok
+  -- `X`: the table is the body of `recursive(|e| ..)`; `call 0` inside the atom / operators is `e`
+  let isRec := a0 == "X"
+  let a ← if isRec then tok else pure a0
   if a != "A" then throw "expected A"
   let atom ← gP
   let o ← tok
@@ -426,7 +429,7 @@ def prattCase : P (Case × G × List PrattOp) := do
   let i ← tok
   if i != "I" then throw "expected I"
   let inputs ← inputsP
-  pure ({ id, ek, kind, gap, mode, fuel, defs := [], main := atom, inputs, hasMemo := false }, atom, ops.reverse)
+  pure ({ id, ek, kind, gap, mode, fuel, defs := [], main := atom, inputs, hasMemo := false }, atom, ops.reverse, isRec)
 
 /-! ### text parsers (C14):  T <id> <char|u8> <parser> <nparams> <params..> I <inputspec> -/
 
@@ -593,12 +596,17 @@ partial def loop (inp out : IO.FS.Stream) : IO Unit := do
   if toks.isEmpty then loop inp out else
   if toks.head? == some "PR" then
     match (prattCase.run toks.tail) with
-    | .ok ((c, atom, ops), _) =>
+    | .ok ((c, atom, ops, isRec), _) =>
       let mut k := 0
       for ts in c.inputs do
         let env := mkEnv c ts
-        out.putStrLn s!"{c.id}.{k} M {renderTop (parseTopPratt c.fuel env c.mode atom ops)}"
-        out.putStrLn s!"{c.id}.{k} S {renderSpec (pegTopPratt c.fuel env atom ops)}"
+        if isRec then
+          let x : XEnv := { hole := 0, atom := atom, ops := ops }
+          out.putStrLn s!"{c.id}.{k} M {renderTop (parseTopX x c.fuel env c.mode)}"
+          out.putStrLn s!"{c.id}.{k} S {renderSpec (pegTopX x c.fuel env)}"
+        else
+          out.putStrLn s!"{c.id}.{k} M {renderTop (parseTopPratt c.fuel env c.mode atom ops)}"
+          out.putStrLn s!"{c.id}.{k} S {renderSpec (pegTopPratt c.fuel env atom ops)}"
         k := k + 1
     | .error e => out.putStrLn s!"ERR {e} :: {line.trimAscii.toString}"
     loop inp out
